@@ -632,10 +632,10 @@ func (s *sut) project() tl.M {
 	if vs.Stored%unitSize != 0 {
 		tl.Fatal("stored %d is not a multiple of the unit", vs.Stored)
 	}
-	lastAligned, lastLimboExact = true, true
+	lastAligned, lastLimboExact, lastMisaligned = true, true, map[string]bool{}
 	for n, txs := range lastPooled {
 		if len(txs) > 0 && txs[0].Nonce != s.chain.head.abs.Nonce[n] {
-			lastAligned = false
+			lastAligned, lastMisaligned[n] = false, true
 		}
 		for _, t := range txs {
 			s.everPooled[t] = true
@@ -690,6 +690,7 @@ var (
 	lastPooled = map[string][]atx{} // the index of the last projection (feedback for the generator)
 	// strict forms of the two properties with a known finding, evaluated on the last projection
 	lastAligned    = true // every pooled list starts at the account's state nonce
+	lastMisaligned = map[string]bool{}
 	lastLimboExact = true // every limbo entry carries the number of the canonical block including it
 )
 
@@ -895,6 +896,15 @@ func runRecord(root, trace string, seed int64, ntraces, nsteps int, sum *tl.Summ
 			switch c := r.Intn(100); {
 			case c < 64:
 				from := acctNames[r.Intn(len(acctNames))]
+				for k := 0; lastMisaligned[from] && k < 8; k++ {
+					// nothing is specified for further submissions of an account that the known finding
+					// C42-recheck-gap-after-overlap left misaligned
+					from = acctNames[r.Intn(len(acctNames))]
+				}
+				if lastMisaligned[from] {
+					a = act{Op: "settip", Tip: 1}
+					break
+				}
 				base, have := blocks[head].Nonce[from], int64(len(pooled[from]))
 				var tx atx
 				switch k := r.Intn(10); {
